@@ -261,6 +261,37 @@ func init() {
 			return defBool("read_add_terminates_when_stopped",
 				stoppedBranchCalls(root().Func("pendingReadIndex", "add"), "terminated"))
 		}},
+		// pendingReadIndex.add stores a COPY of the slice it is handed (the slice is one of
+		// the two reusable buffers of readIndexQueue; a batch aliasing it would be
+		// overwritten by later client reads)
+		Fact{Name: "read_add_copies_its_argument", Gen: func() string {
+			fd := root().Func("pendingReadIndex", "add")
+			param := ""
+			for _, f := range fd.Type.Params.List {
+				if at, ok := f.Type.(*ast.ArrayType); ok && at.Len == nil && len(f.Names) == 1 {
+					param = f.Names[0].Name
+				}
+			}
+			copied, storedDirect := false, false
+			ast.Inspect(fd.Body, func(n ast.Node) bool {
+				switch x := n.(type) {
+				case *ast.CallExpr:
+					if id, ok := x.Fun.(*ast.Ident); ok && id.Name == "copy" && len(x.Args) == 2 {
+						if a, ok := x.Args[1].(*ast.Ident); ok && a.Name == param {
+							copied = true
+						}
+					}
+				case *ast.KeyValueExpr:
+					if k, ok := x.Key.(*ast.Ident); ok && k.Name == "requests" {
+						if v, ok := x.Value.(*ast.Ident); ok && v.Name == param {
+							storedDirect = true
+						}
+					}
+				}
+				return true
+			})
+			return defBool("read_add_copies_its_argument", param != "" && copied && !storedDirect)
+		}},
 		// pendingRaftLogQuery.add refuses requests after close
 		Fact{Name: "logquery_add_refuses_when_stopped", Gen: func() string {
 			return defBool("logquery_add_refuses_when_stopped",
